@@ -36,6 +36,7 @@ OWN = {
  "disMacro substitutes": ["C20"],
  "haystack_filter_destroy": ["C18"],
  "last_error_message no longer aborts": ["C18", "C17"],
+ "is_false is true only": ["C19"],
 }
 def sh(cmd, **kw):
     return subprocess.run(cmd, shell=True, stdout=subprocess.PIPE, stderr=subprocess.STDOUT, text=True, **kw)
